@@ -102,7 +102,6 @@ Failing ==
   \cup F("D_NoError", D_NoError)
   \cup F("D_Drift", D_Drift)
   \cup F("D_Model", D_Model)
-GSortT(S) == LET RECURSIVE F(_) F(i) == IF i > Len(G) THEN <<>> ELSE (IF G[i] \in S THEN <<G[i]>> ELSE <<>>) \o F(i + 1) IN F(1)
 Triage ==
   IF Failing = {} THEN TRUE
   ELSE PrintT("VERDICT " \o ToJson(
